@@ -267,6 +267,16 @@ where
                         break;
                     }
                 }
+                // Without a line limit the loop only ends once the stack is empty, so every
+                // split has to consume some text. If not even the first grapheme fits on a
+                // row which is still empty (e.g. a double-width character and a two column
+                // wide panel) then stop wrapping, as if the line limit had been reached: the
+                // rest is added to the last line and truncated later.
+                if max_lines == 0 && byte_split_pos == 0 && line_segments.is_empty() {
+                    stack.push((style, text));
+                    curr_line = CurrLine::reset();
+                    break Stop::LineLimit;
+                }
 
                 let this_line = &text[..byte_split_pos];
                 line_segments.push((style, this_line));
